@@ -3,6 +3,7 @@ import Cellml.Props.C17
 import Cellml.Tie.ConnDir
 import Cellml.Tie.ConnLoopClosed
 import Cellml.Tie.LoaderGen
+import Cellml.Tie.LoaderUnitsOrder
 
 /-! # C01 — the headline theorems of `Props/C01.lean`, stated about the code GENERATED from parser.py
 
@@ -13,10 +14,13 @@ import Cellml.Tie.LoaderGen
       the measure of the hand model; `Tie/ConnLoopClosed.lean`);
     * `Gen.LoaderSym.symbolGenerator`             — the closure `symbol_generator` of `Parser._add_maths`;
     * `Gen.LoaderParse.parse`                     — `Parser.parse`, as `Tie.GenA.genParse fd us`: run over the stages
-      `genStages fd` = the model's stages with the connection work list replaced by the closed generated loop.
+      `genStages fd`, which are GENERATED code down to the leaves — `_add_units` (closed loop `genAddUnits`),
+      `_add_components`, `_add_relationships` / `_handle_component_ref` (recursion closed), `_add_connections` (generated
+      set-up part handing its start values to the closed loop), the symbol resolution of `_add_maths`,
+      `transform_constants` (`Tie/LoaderStagesA…D.lean`, `Tie/LoaderGen.lean`).
     Every theorem is a corollary of the theorem of the same name in `Props/C01.lean` through the ties
     (`connDir_tie`, `genConnect_eq` ⇐ `connLoop_body_tie` / `connectLoop_cons`, `symbolGenerator_fuel` ⇐
-    `whileUpTo_resolve`, `parse_tie`). -/
+    `whileUpTo_resolve`, `genParse_tie`, and — for the units — `LoaderClose.addUnits_buildUnits`). -/
 
 namespace Cellml.Props.C01Gen
 open Load PMap Cellml.Tie Cellml.Tie.GenA Cellml.Gen
@@ -162,17 +166,17 @@ example : genConnect relayUnits.1 relayVt twoSources = .error ⟨"ValueError"⟩
 
 /-! ## 3. Soundness of loading, about the generated `Parser.parse`
 
-    `parse_tie` ties the generated `parse` to `C17.loadFull` (the document as written: unit definitions `fd.udefs` in
+    `genParse_tie` ties the generated `parse` to `C17.loadFull` (the document as written: unit definitions `fd.udefs` in
     file order through the work list of `_add_units`), while `load_sound` / `load_complete` speak about `Load.load`
-    (unit definitions `doc.units` already sorted). A `FaultDoc` carries both lists as independent fields; that they
-    describe the same `<units>` elements is the hypothesis `UnitsAgree` (not a hypothesis of a tie: a relation between
-    the two hand models; see the report). -/
+    (unit definitions `doc.units` already sorted). The two are now RELATED BY THEOREM
+    (`Tie/LoaderUnitsOrder.lean`, `addUnits_buildUnits`): when the work list succeeds, `Load.load` on the same
+    `<units>` elements in the order the work list added them (a permutation of `fd.udefs`, base units first) returns
+    the same registry and unit store, hence IS the loader `loadFull` runs. The former hypothesis `UnitsAgree fd` — that
+    the independent field `fd.doc.units` happens to agree with `fd.udefs` — is gone: the theorems below do not look at
+    `fd.doc.units` at all; the `Loaded` they speak about is the one built on the units of the work list
+    (`C17.prepareFrom reg ust`, the function `Load.prepare` is after its unit stage: `C17.prepare_eq`). -/
 
-/-- the unit work list on the definitions as written ends with the registry and store that adding the sorted
-    definitions one by one gives -/
-def UnitsAgree (fd : C17.FaultDoc) : Prop :=
-  ∀ reg ust, Units.addUnits 0 fd.udefs = .ok (reg, ust) →
-    buildUnits fd.doc.units (Units.builtinRegistry, { id := 0, known := [] }) = .ok (reg, ust)
+open Cellml.Tie.LoaderClose (SortedFrom withUnits load_agrees)
 
 /-- the hypothesis `InitOnSources` of `load_sound` / `load_complete` is IMPLIED by the generated `parse` succeeding
     (`self._validate`, bound to `C17.schemaVars`): it is not carried by the `…_gen` theorems -/
@@ -184,46 +188,64 @@ theorem initOnSources_of_schemaVars {doc : Doc} (h : C17.schemaVars doc = true) 
   unfold C17.schemaVar at h2
   cases hp : d.pub <;> cases hq : d.priv <;> simp_all
 
-/-- a successful run of the generated `parse` is a successful `Load.load` of the same document -/
+/-- the document semantics does not mention the unit declarations of the `Doc` (only the registry / store in `L`) -/
+theorem docSat_withUnits {doc : Doc} {us : List UnitDecl} {L : Loaded} {den : Scale → Rat} {σ : VRef → Rat}
+    {δ : VRef → VRef → Rat} : DocSat (withUnits doc us) L den σ δ ↔ DocSat doc L den σ δ :=
+  ⟨fun h => ⟨h.eqs, h.conns, h.dconn₁, h.dconn₂, h.inits⟩, fun h => ⟨h.eqs, h.conns, h.dconn₁, h.dconn₂, h.inits⟩⟩
+
+/-- a successful run of the generated `parse` is a successful `Load.load` of the same document, its `<units>`
+    elements taken in the order the work list added them — no hypothesis relating `fd.udefs` and `fd.doc.units` -/
 theorem load_of_parse_gen {fd : C17.FaultDoc} {us : Option Unit} {F : Flat}
-    (hgen : (genParse fd us).map (·.flat) = .ok (some F)) (hunits : UnitsAgree fd) :
-    load fd.doc = .ok F ∧ InitOnSources fd.doc := by
+    (hgen : (genParse fd us).map (·.flat) = .ok (some F)) :
+    ∃ reg ust srt, Units.addUnits 0 fd.udefs = .ok (reg, ust) ∧ SortedFrom fd.udefs srt ∧
+      load (withUnits fd.doc srt) = .ok F ∧
+      prepare (withUnits fd.doc srt) = C17.prepareFrom reg ust fd.doc ∧ InitOnSources fd.doc := by
   have hfull := (parse_ok_iff fd us F).mp hgen
   obtain ⟨hs, _, _, _⟩ := loadFull_ok_parts hfull
   obtain ⟨reg, ust, hu, hF⟩ := loadFull_ok_loadFrom hfull
-  refine ⟨?_, initOnSources_of_schemaVars hs⟩
-  rw [C17.load_eq, hunits reg ust hu]
-  exact hF
+  obtain ⟨srt, hsrt, hl, hp⟩ := load_agrees fd.doc hu
+  exact ⟨reg, ust, srt, hu, hsrt, hl.trans hF, hp, initOnSources_of_schemaVars hs⟩
 
 /-- `load_sound` for the generated `parse`: if it returns the flat model `F`, every physical solution of `F`, read
-    through `rootOf`, is a physical solution of the document. -/
+    through `rootOf`, is a physical solution of the document. (`L` is what the loader computed on the units of the
+    work list; the statement is `load_sound`'s, with `Load.prepare` replaced by the same function after its unit
+    stage.) -/
 theorem load_sound_gen {fd : C17.FaultDoc} {us : Option Unit} {F : Flat} {den : Scale → Rat}
-    (hgen : (genParse fd us).map (·.flat) = .ok (some F)) (hunits : UnitsAgree fd)
+    (hgen : (genParse fd us).map (·.flat) = .ok (some F))
     (τ : VRef → Rat) (δ : VRef → VRef → Rat) (hsat : FlatSat den F τ δ) :
-    ∃ L, prepare fd.doc = .ok L ∧
+    ∃ reg ust L, Units.addUnits 0 fd.udefs = .ok (reg, ust) ∧ C17.prepareFrom reg ust fd.doc = .ok L ∧
       DocSat fd.doc L den (fun v => τ (rootOf L.st v)) (fun x t => δ (rootOf L.st x) (rootOf L.st t)) := by
-  obtain ⟨hload, hvalid⟩ := load_of_parse_gen hgen hunits
-  exact load_sound hload hvalid τ δ hsat
+  obtain ⟨reg, ust, srt, hu, _, hload, hprep, hvalid⟩ := load_of_parse_gen hgen
+  obtain ⟨L, hL, hsatD⟩ := load_sound (doc := withUnits fd.doc srt) hload hvalid τ δ hsat
+  exact ⟨reg, ust, L, hu, hprep ▸ hL, docSat_withUnits.mp hsatD⟩
+
+/-- … and in the words of `Load.load` itself: the same conclusion for `Load.prepare` on the document whose units are
+    in the work list's order -/
+theorem load_sound_gen_sorted {fd : C17.FaultDoc} {us : Option Unit} {F : Flat} {den : Scale → Rat}
+    (hgen : (genParse fd us).map (·.flat) = .ok (some F))
+    (τ : VRef → Rat) (δ : VRef → VRef → Rat) (hsat : FlatSat den F τ δ) :
+    ∃ srt L, SortedFrom fd.udefs srt ∧ load (withUnits fd.doc srt) = .ok F ∧ prepare (withUnits fd.doc srt) = .ok L ∧
+      DocSat fd.doc L den (fun v => τ (rootOf L.st v)) (fun x t => δ (rootOf L.st x) (rootOf L.st t)) := by
+  obtain ⟨reg, ust, srt, hu, hsrt, hload, hprep, hvalid⟩ := load_of_parse_gen hgen
+  obtain ⟨L, hL, hsatD⟩ := load_sound (doc := withUnits fd.doc srt) hload hvalid τ δ hsat
+  exact ⟨srt, L, hsrt, hload, hL, docSat_withUnits.mp hsatD⟩
 
 /-- `load_complete` for the generated `parse`: every physical solution of the document solves the flat model it
     returns. -/
 theorem load_complete_gen {fd : C17.FaultDoc} {us : Option Unit} {F : Flat} {den : Scale → Rat} (hden : DenOK den)
-    (hgen : (genParse fd us).map (·.flat) = .ok (some F)) (hunits : UnitsAgree fd)
-    (σ : VRef → Rat) (δ : VRef → VRef → Rat) (L : Loaded) (hprep : prepare fd.doc = .ok L)
+    (hgen : (genParse fd us).map (·.flat) = .ok (some F))
+    (σ : VRef → Rat) (δ : VRef → VRef → Rat) (reg : Registry) (ust : Units.Store) (L : Loaded)
+    (hu : Units.addUnits 0 fd.udefs = .ok (reg, ust)) (hprep : C17.prepareFrom reg ust fd.doc = .ok L)
     (hsat : DocSat fd.doc L den σ δ) : FlatSat den F σ δ := by
-  obtain ⟨hload, hvalid⟩ := load_of_parse_gen hgen hunits
-  exact load_complete hden hload hvalid σ δ L hprep hsat
+  obtain ⟨reg', ust', srt, hu', _, hload, hprep', hvalid⟩ := load_of_parse_gen hgen
+  rw [hu] at hu'
+  simp only [Except.ok.injEq, Prod.mk.injEq] at hu'
+  obtain ⟨rfl, rfl⟩ := hu'
+  exact load_complete hden hload hvalid σ δ L (hprep'.trans hprep) (docSat_withUnits.mpr hsat)
 
 /-! ## 4. Non-vacuity: the relay document of `Props/C01.lean` goes through the generated code -/
 
 open Cellml.Props.C17 (relayFd relay_loadFull relay_addUnits relay_buildUnits mVdef)
-
-theorem relay_unitsAgree : UnitsAgree relayFd := by
-  intro reg ust h
-  have h' : Units.addUnits 0 [mVdef] = .ok (reg, ust) := h
-  rw [relay_addUnits] at h'
-  rw [← Except.ok.inj h']
-  exact relay_buildUnits
 
 /-- the generated `parse` returns the flat model of the relay document -/
 theorem relay_parse_gen (us : Option Unit) :
@@ -234,10 +256,10 @@ theorem relay_parse_gen (us : Option Unit) :
 example : genConnect relayUnits.1 relayVt relayDl = .ok relaySt :=
   (genConnect_ok_iff _ _ _ _).mpr relay_connect
 
-/-- `load_sound_gen` applied -/
-example : ∃ L, prepare relayDoc = .ok L ∧
+/-- `load_sound_gen` applied (no side condition on the units any more) -/
+example : ∃ reg ust L, Units.addUnits 0 relayFd.udefs = .ok (reg, ust) ∧ C17.prepareFrom reg ust relayDoc = .ok L ∧
     DocSat relayDoc L denInt (fun v => relayτ (rootOf L.st v)) (fun _ _ => 0) :=
-  load_sound_gen (fd := relayFd) (relay_parse_gen none) relay_unitsAgree relayτ (fun _ _ => 0) relay_flatSat
+  load_sound_gen (fd := relayFd) (relay_parse_gen none) relayτ (fun _ _ => 0) relay_flatSat
 
 /-- `direction_swap_gen` is not vacuous -/
 example : (ConnDir.determineConnectionDirection (loaderView relayPar relayVt) "channel" "V" "gate" "v").map
